@@ -39,8 +39,8 @@ ASSUMPTIONS = [
     'comments are excluded from the lossless comparison when they hold characters the target encoding cannot represent (escapes are not interpreted inside comments; recorded as KF-C08 if observed)',
 ]
 MIN_EVENTS = {
-    'quick': {'oracle.conflict': 100, 'oracle.precedence': 19000, 'levels.checked': 38000, 'oracle.lossless': 15000, 'escapes.needed': 8000, 'table.depth1-rows': 1500},
-    'thorough': {'oracle.conflict': 1000, 'oracle.precedence': 230000, 'levels.checked': 450000, 'oracle.lossless': 240000, 'escapes.needed': 120000, 'table.depth1-rows': 1500},
+    'quick': {'oracle.conflict': 90, 'oracle.precedence': 19000, 'levels.checked': 38000, 'oracle.lossless': 15000, 'escapes.needed': 8000, 'table.depth1-rows': 1500},
+    'thorough': {'oracle.conflict': 900, 'oracle.precedence': 230000, 'levels.checked': 450000, 'oracle.lossless': 240000, 'escapes.needed': 120000, 'table.depth1-rows': 1500},
 }
 
 ENCS = ['iso-8859-1', 'koi8-r', 'iso-8859-5', 'iso-8859-7', 'cp437', 'cp1251', 'mac-roman', 'iso-8859-2']
